@@ -222,7 +222,7 @@ def check_partial_error(ctx, f):
     cands = []
     for sb, sw in b.switches():
         src = b.bool_operand_source(sw["op"])
-        if src and src["kind"] == "discr" and util.base_ty(src.get("ty") or "") == "automerge::storage::load::LoadedChanges":
+        if src and src["kind"] == "discr" and util.base_ty(src.get("ty") or "") == "automerge::storage::load::LoadedChanges" and sb in b.live_blocks() and not b.blocks[sb].get("cleanup"):
             cands.append((sb, sw, src))
     # the user's `match` is the first such switch; later ones are drop elaboration of the same value
     first = [c for c in cands if not any(o[0] != c[0] and b.can_reach(o[0], c[0]) for o in cands)]
